@@ -379,6 +379,78 @@ def _template_call(fi, fields) -> ast.Call:
     return cands[0]
 
 
+def _const_sequence(R, f, e: ast.AST) -> Optional[List[ast.AST]]:
+    """The elements of `e` when it is a sequence fixed by the source: a tuple/list display, a module-level name bound to
+    one, the enumeration `Type` itself (members in declaration order), or a comprehension that filters such a sequence by
+    membership in another (`[t for t in Type if t in NAME_TYPES]`)."""
+    if isinstance(e, (ast.Tuple, ast.List)):
+        return list(e.elts)
+    if isinstance(e, ast.Name):
+        if e.id == 'Type':
+            return [ast.parse(f'Type.{k}', mode='eval').body for k in fold_enum(R.repo, P, 'Type')]
+        for modname in (f.fi.module.name, P):
+            for s_ in R.repo.module(modname).tree.body:
+                tgt = s_.targets[0] if isinstance(s_, ast.Assign) and len(s_.targets) == 1 else (s_.target if isinstance(s_, ast.AnnAssign) else None)
+                if tgt is not None and text(tgt) == e.id and isinstance(getattr(s_, 'value', None), (ast.Tuple, ast.List)):
+                    return list(s_.value.elts)
+    return None
+
+
+def read_tables(R, f, v: ast.AST) -> ast.AST:
+    """`v` with look-ups in tables that the source fixes read through: `{t: V(t) for t in <fixed sequence> [if t in <fixed>]}[K]`
+    is `V(K)`, its `.values()` the list of `V(t)` in the order of the sequence (so: in the order the *source* iterates -
+    declaration order for an enumeration), `(a, b, c)[1]` is `b`."""
+    import copy as _copy
+    from fsa.summ import _subst
+
+    def keys_of(dc: ast.DictComp) -> Optional[List[ast.AST]]:
+        if len(dc.generators) != 1 or not isinstance(dc.generators[0].target, ast.Name) or text(dc.key) != dc.generators[0].target.id:
+            return None
+        g = dc.generators[0]
+        seq = _const_sequence(R, f, g.iter)
+        if seq is None:
+            return None
+        for c_ in g.ifs:
+            if isinstance(c_, ast.Compare) and len(c_.ops) == 1 and isinstance(c_.ops[0], ast.In) and text(c_.left) == g.target.id:
+                allowed = _const_sequence(R, f, c_.comparators[0])
+                if allowed is None:
+                    return None
+                at = {text(x) for x in allowed}
+                seq = [x for x in seq if text(x) in at]
+            else:
+                return None
+        return seq
+
+    class T(ast.NodeTransformer):
+        def visit_Subscript(self, node):
+            self.generic_visit(node)
+            if isinstance(node.value, ast.DictComp):
+                ks = keys_of(node.value)
+                if ks is not None and text(node.slice) in {text(k) for k in ks}:
+                    return _subst(node.value.value, {node.value.generators[0].target.id: node.slice})
+            if isinstance(node.value, (ast.Tuple, ast.List)) and isinstance(node.slice, ast.Constant) and isinstance(node.slice.value, int) \
+                    and 0 <= node.slice.value < len(node.value.elts):
+                return node.value.elts[node.slice.value]
+            # `a, b, c = (V(t) for t in <fixed sequence>)`: the i-th name gets V(<i-th element>)
+            if isinstance(node.value, (ast.GeneratorExp, ast.ListComp)) and isinstance(node.slice, ast.Constant) and isinstance(node.slice.value, int) \
+                    and len(node.value.generators) == 1 and isinstance(node.value.generators[0].target, ast.Name) and not node.value.generators[0].ifs:
+                seq = _const_sequence(R, f, node.value.generators[0].iter)
+                if seq is not None and 0 <= node.slice.value < len(seq):
+                    return _subst(node.value.elt, {node.value.generators[0].target.id: seq[node.slice.value]})
+            return node
+
+        def visit_Call(self, node):
+            self.generic_visit(node)
+            if method_call(node, 'values') and not node.args and isinstance(node.func.value, ast.DictComp):
+                ks = keys_of(node.func.value)
+                if ks is not None:
+                    dc = node.func.value
+                    return ast.List(elts=[_subst(dc.value, {dc.generators[0].target.id: k}) for k in ks], ctx=ast.Load())
+            return node
+
+    return ast.fix_missing_locations(T().visit(_copy.deepcopy(v)))
+
+
 def _check_name_list(R, q, nm, ty, v, sym_param, where) -> str:
     """`v` (canonical value) must be [s.name for s in symbols if s.type == Type.<ty>]."""
     from fsa.match import atoms_equal, nnf_atoms
@@ -512,7 +584,7 @@ def r5_definition(R) -> None:
     call = _template_call(f.fi, list(FIELDS) + ['lags', 'leads', 'equations'])
     st = _stmt_of(f.fi.node, se, call)
     where = f'{f.fi.module.relpath}:{call.lineno}'
-    vals = {k.arg: canon(f.groupby_read(canon(se.value(st, k.value)))) for k in call.keywords if k.arg}
+    vals = {k.arg: canon(read_tables(R, f, f.groupby_read(canon(se.value(st, k.value))))) for k in call.keywords if k.arg}
     py_forms = {}
     for nm, ty in FIELDS.items():
         py_forms[nm] = _check_name_list(R, q, nm, ty, vals[nm], sym_param, where)
@@ -561,7 +633,7 @@ def r5_definition(R) -> None:
     fcall = _template_call(ft.fi, list(FIELDS) + ['lags', 'leads', 'equations'])
     fst = _stmt_of(ft.fi.node, fse, fcall)
     fwhere = f'{ft.fi.module.relpath}:{fcall.lineno}'
-    fvals = {k.arg: ft.groupby_read(canon(fse.value(fst, k.value))) for k in fcall.keywords if k.arg}
+    fvals = {k.arg: read_tables(R, ft, ft.groupby_read(canon(fse.value(fst, k.value)))) for k in fcall.keywords if k.arg}
     # the same specification is checked on the Fortran side (not a textual comparison: either side may be spelled differently)
     for nm, agg, floor in (('lags', 'min', 'min_lags'), ('leads', 'max', 'min_leads')):
         _check_lag_spec(R, fq, nm, agg, floor, canon(fvals[nm]), fsym, fwhere)
@@ -573,18 +645,39 @@ def r5_definition(R) -> None:
         for x in lists[:1]:
             _check_name_list(R, fq, nm, ty, canon(x), fsym, fwhere)
     # numbering: variables are numbered endogenous, exogenous, parameters, errors (the order of NAMES)
-    chains = [x for x in ast.walk(ft.fi.node) if is_call(x, 'itertools.chain', 'chain') and len(x.args) == 4]
-    if chains:
-        cst = _stmt_of(ft.fi.node, fse, chains[0])
-        got = []
-        for a_, (nm, ty) in zip(chains[0].args, FIELDS.items()):
-            v_ = canon(fse.value(cst, a_))
-            g_ = v_.generators[0] if isinstance(v_, ast.ListComp) and len(v_.generators) == 1 else None
-            sel = text(g_.ifs[0]) if g_ is not None and len(g_.ifs) == 1 else '?'
-            got.append(sel.split('Type.')[-1] if 'Type.' in sel else sel)
+    got = numbering_order(R, ft, fse)
+    if got is not None:
         want = list(FIELDS.values())
         R.check(got == want, fq, 'twin-numbering', 'Fortran variable numbers follow ENDOGENOUS + EXOGENOUS + PARAMETERS + ERRORS',
-                f'variables are numbered over `{[g_[:40] for g_ in got]}`', where=f'{ft.fi.module.relpath}:{chains[0].lineno}')
+                f'variables are numbered over `{[str(g_)[:40] for g_ in got]}`', where=ft.fi.where)
+
+
+def numbering_order(R, ft, fse) -> Optional[List[str]]:
+    """The Type members whose name lists are chained, in order, to number the variables of the Fortran module: read on the
+    gated value of what `enumerate(...)` runs over (chain(a, b, c, d), chain.from_iterable(<table>.values()), ...)."""
+    from fsa.gated import canon
+    ens = [x for x in ast.walk(ft.fi.node) if is_call(x, 'enumerate') and x.args and (is_call(x.args[0], 'itertools.chain', 'chain', 'itertools.chain.from_iterable', 'chain.from_iterable'))]
+    if not ens:
+        return None
+    ch = ens[0].args[0]
+    cst = _stmt_of(ft.fi.node, fse, ch)
+    if is_call(ch, 'itertools.chain', 'chain'):
+        parts = [read_tables(R, ft, ft.groupby_read(canon(fse.value(cst, a_)))) for a_ in ch.args]
+    else:
+        seq = read_tables(R, ft, ft.groupby_read(canon(fse.value(cst, ch.args[0]))))
+        if not isinstance(seq, (ast.List, ast.Tuple)):
+            if any(isinstance(x, ast.Call) and isinstance(x.func, ast.Attribute) and x.func.attr == 'values' for x in ast.walk(seq)):
+                # the values of a dictionary whose key order the source does not fix (filled while passing over the symbols)
+                return ['<insertion order of `%s`: depends on which type appears first among the symbols>' % text(seq)[:50]]
+            raise Unsupported(f'{ft.q}: the variables are numbered over `{text(seq)[:70]}`')
+        parts = list(seq.elts)
+    got = []
+    for v_ in parts:
+        v_ = canon(v_, fuse=True)
+        g_ = v_.generators[0] if isinstance(v_, ast.ListComp) and len(v_.generators) == 1 else None
+        sel = text(g_.ifs[0]) if g_ is not None and len(g_.ifs) == 1 else '?'
+        got.append(sel.split('Type.')[-1] if 'Type.' in sel else sel)
+    return got
 
 
 def result_dict(f) -> Optional[str]:
